@@ -599,6 +599,65 @@ def history_oracle(h, obs):
     return fails
 
 
+def interleaved_oracle(rng, n):
+    """Implementation only: a model whose construction is interleaved with the construction (and
+    solving) of other models in the same process must emit the same equations and the same series
+    as the same model built alone."""
+    import random
+    import gen_common as G
+    fails, count = [], 0
+    for _ in range(n):
+        seed = rng.randrange(10 ** 9)
+        pa = G.ProgGen(random.Random(seed), shuffle=False).any()
+        pb = G.ProgGen(random.Random(seed + 1), shuffle=False).single()
+        cut = rng.randrange(1, max(2, len([st for st in pa['steps'] if st['kind'] != 'op'])))
+
+        def other(i, cut=cut, pb=pb):
+            if i == cut:
+                mb, _ = G.build(pb)
+                try:
+                    mb.main()
+                except Exception:  # noqa
+                    pass
+        try:
+            ma, _ = G.build(pa, after_step=other)
+            ta = G.generate_equations(ma)
+            mref, _ = G.build(pa)
+            tref = G.generate_equations(mref)
+        except Exception as e:  # noqa
+            fails.append({'key': 'history:interleaved-construction', 'what': 'interleaved construction fails: %r' % (e,),
+                          'replay': {'kind': 'interleaved', 'a': G.strip_prog(pa), 'b': G.strip_prog(pb), 'cut': cut}})
+            continue
+        count += 1
+        if ta != tref:
+            la, lr = ta.split('\n'), tref.split('\n')
+            diff = [(x.strip()[:90], y.strip()[:90]) for x, y in zip(la, lr) if x != y][:2]
+            fails.append({'key': 'history:interleaved-construction',
+                          'what': 'a model built while another model is created mid-way emits different equations than built alone: %r' % (diff,),
+                          'replay': {'kind': 'interleaved', 'a': G.strip_prog(pa), 'b': G.strip_prog(pb), 'cut': cut}})
+    return fails, count
+
+
+def replay_interleaved(r):
+    import gen_common as G
+
+    def other(i):
+        if i == r['cut']:
+            mb, _ = G.build(r['b'])
+            try:
+                mb.main()
+            except Exception:  # noqa
+                pass
+    try:
+        ma, _ = G.build(r['a'], after_step=other)
+        ta = G.generate_equations(ma)
+        mref, _ = G.build(r['a'])
+        tref = G.generate_equations(mref)
+    except Exception as e:  # noqa
+        return ['interleaved construction fails: %r' % (e,)]
+    return [] if ta == tref else ['equations differ between interleaved and stand-alone construction']
+
+
 def run(ctx):
     out = common.Outcome()
     out.proof = common.proof_status(FAMILY, PROPFILE)
@@ -668,13 +727,17 @@ def run(ctx):
         if len([a for a in sc['actions'] if a[0] in ('main', 'solve', 'model_resolve')]) >= 2:
             seen.add(json.dumps(sc, sort_keys=True))
     stats['fresh_references'] = len(_fresh_cache)
-    out.evaluations = len(cases) + len(scens)
+    ifails, icount = interleaved_oracle(ctx.rng, ctx.scale(40, 600))
+    out.failures.extend(ifails)
+    stats['interleaved_constructions'] = icount
+    out.evaluations = len(cases) + len(scens) + icount
     out.nontrivial = len(seen)
     out.rule = ('(a) random interleavings of 3-14 operations (ParseString of a block from a pool of %d, SolveEquation, TraceStep, '
                 'MaxTime) on 1-3 EquationSolver objects in the harness interpreter, one Coq case per object; (b) scenarios run in '
                 'one fresh interpreter each: 0-4 models (gl_book SIM/SIMEX1/PC, custom SIM-like economies with random '
                 'parameters) and 0-3 raw solvers with re-parsing, repeated solves, tracing, in-memory logs on/off and burnt '
-                'object IDs, interleaved at random; non-trivial = a history with at least two ParseString and a solve, or a '
+                'object IDs, interleaved at random; (c) generated model programs whose construction is interrupted mid-way by '
+                'building and solving another model, compared with the same program built alone; non-trivial = a history with at least two ParseString and a solve, or a '
                 'scenario with at least two solves; distinct by full input' % (len(BLOCKS) - 1))
     out.samples = [hists[0], scens[1], hists[-1]]
     out.extra = {'input_distribution': stats, 'source_hashes': common.source_hashes(
@@ -708,6 +771,8 @@ def replay(path):
         h = r['history']
         prefetch(needed_keys(h))
         fails = history_oracle(h, run_history_impl(h))
+    elif r.get('kind') == 'interleaved':
+        fails = [{'key': 'history:interleaved-construction', 'what': w} for w in replay_interleaved(r)]
     else:
         print('replay names a proof/correspondence obligation, nothing to execute:', json.dumps(obj)[:600])
         return 1
